@@ -100,6 +100,10 @@ def check_normalize_and_csv(position, fe):
         if position == 'transform':
             head = 'field.description = %s\nfield.memo = %s\n\n' % (fe, fe)
             body = GOOD + '\n' + AFTER
+        elif position == 'transform_then_good':
+            # a failing transform followed by a good one: only the failing one is skipped
+            head = 'field.memo = %s\nfield.description = strip_prefix(description, "GOOD ")\n\n' % fe
+            body = '[Stripped]\nmatch: startswith("STORE")\ncategory: CatStripped\nsubcategory: S\n\n' + GOOD + '\n' + AFTER
         elif position == 'variable':
             head = 'v = %s\n\n' % fe
             body = '[UsesVar]\nmatch: v\ncategory: CatVar\nsubcategory: S\n\n' + GOOD + '\n' + AFTER
@@ -126,6 +130,8 @@ def check_normalize_and_csv(position, fe):
             if position in ('transform', 'variable', 'match', 'let') and 'GOOD' in t['description'] and c != 'CatGood' \
                     and fe != 'uppercase(description)':
                 O.fail('C08.other_rules_affected.%s' % position, dict(w, txn=ti), 'CatGood', c)
+            if position == 'transform_then_good' and t['description'] == 'GOOD STORE' and c != 'CatStripped':
+                O.fail('C08.transform_after_a_failing_one_not_applied', dict(w, txn=ti), 'CatStripped', c, 'apply_transforms: later transforms still run')
         csv_path = os.path.join(tmp, 'data.csv')
         open(csv_path, 'w').write('Date,Desc,Amount,Kind\n01/05/2025,GOOD STORE,10.00,Wire\n01/06/2025,OTHER,700.00,ACH\n01/07/2025,GOOD,3.50,\n')
         spec = parse_format_string('{date:%m/%d/%Y}, {description}, {amount}, {kind}')
@@ -180,7 +186,7 @@ def main():
         for position in ('match', 'let', 'field', 'tag'):
             for order in ('FGA', 'GFA', 'AGF'):
                 check_engine(position, fe, order)
-        for position in ('match', 'let', 'field', 'tag', 'transform', 'variable'):
+        for position in ('match', 'let', 'field', 'tag', 'transform', 'transform_then_good', 'variable'):
             check_normalize_and_csv(position, fe)
         check_views(fe)
     # view filters / variables that misuse the aggregate primitives (arguments of the wrong type, unknown periods)
